@@ -123,6 +123,9 @@ def replay(p):
     if p["kind"] == "factor":
         pr = factor_problem()
         return bool(pr), pr or "factors agree"
+    if p["kind"] == "device":
+        pr = device_problem()
+        return bool(pr), pr or "documented form"
     return _num(p["n"], p["kind"], p.get("word"), p["values"])
 
 
@@ -136,8 +139,39 @@ def factor_problem():
     return None
 
 
+def device_problem():
+    """documented form of the device measurement, on probability-one facts of the product state |+>|1>|0>: column j of bits / recipes
+    belongs to wires[j]; recipe 2 (Z) on the |1> wire gives bit 1, on the |0> wire bit 0; recipe 0 (X) on the |+> wire gives bit 0"""
+    dev = qp.device("default.qubit", wires=3, seed=11)
+    for ws in ([0, 1, 2], [1, 0], [2, 0, 1], [2, 1], [0], [2]):
+        tape = qp.tape.QuantumScript([qp.Hadamard(0), qp.PauliX(1)], [qp.classical_shadow(wires=ws, seed=5)], shots=80)
+        res = qp.execute([tape], dev)[0]
+        res = np.asarray(res)
+        if res.shape != (2, 80, len(ws)):
+            return f"classical_shadow(wires={ws}): result shape {res.shape}, documented (2, shots, n) = (2, 80, {len(ws)})"
+        bits, recipes = res[0], res[1]
+        if not set(np.unique(bits)) <= {0, 1} or not set(np.unique(recipes)) <= {0, 1, 2}:
+            return f"classical_shadow(wires={ws}): bits / recipes outside {{0,1}} / {{0,1,2}}"
+        for j, w in enumerate(ws):
+            for t in range(80):
+                r, b = int(recipes[t, j]), int(bits[t, j])
+                want = {(0, 0): 0, (1, 2): 1, (2, 2): 0}.get((w, r))
+                if want is not None and b != want:
+                    return f"classical_shadow(wires={ws}): shot {t}, column {j} (wire {w}) has recipe {NAMES[r]} and bit {b}; the state |+>|1>|0> gives bit {want} with probability one"
+    return None
+
+
 def work(item):
     n, kind, word = item
+    if kind == "device":
+        try:
+            pr = device_problem()
+        except Exception as e:  # noqa: BLE001
+            pr = f"raised {e!r}"
+        rec = {"name": "device classical_shadow: shape (2, shots, n), value ranges and column-to-wire assignment on probability-one facts", "status": "violated" if pr else "discharged", "symbols": [], "nontrivial": False, "queries": 0, "detail": pr or "documented form"}
+        if pr:
+            rec.update(signature="device", replay={"kind": "device", "observed": pr})
+        return [rec]
     if kind == "factor":
         pr = factor_problem()
         rec = {"name": "local snapshot factor == 3 * eigenprojector(recipe, bit) - identity for all 6 (recipe, bit) pairs", "status": "violated" if pr else "discharged", "symbols": [], "nontrivial": False, "queries": 0, "detail": pr or "agree (up to the library's complex64 cast, 1e-7)"}
@@ -185,7 +219,7 @@ def bound_entries(S):
 
 def run(ctx):
     ctx.level = "other"
-    items = [(0, "factor", None), (1, "local", None), (1, "global", None), (2, "local", None), (2, "global", None)]
+    items = [(0, "device", None), (0, "factor", None), (1, "local", None), (1, "global", None), (2, "local", None), (2, "global", None)]
     items += [(1, "expval", w) for w in "XYZ"] + [(2, "expval", w) for w in ("XI", "IZ", "XY", "ZZ", "YX", "YY")]
     if ctx.only:
         items = [it for it in items if ctx.only in str(it)]
